@@ -1,7 +1,7 @@
 /-
 Engine A — the keyword pass of `zeep.xsd.valueobjects._process_signature` for complex types whose
 content is a non-repeating sequence of element declarations and non-repeating `xsd:choice`s of
-element declarations, called with keywords only (the "choice elements specified directly in the
+element declarations or of non-repeating sequences of element declarations, called with keywords only (the "choice elements specified directly in the
 kwargs" path of `Choice.parse_kwargs`, the `else` branch of `OrderIndicator.parse_kwargs`,
 `AnySimpleType.parse_kwargs` / `ComplexType.parse_kwargs` for a member).
 
@@ -26,14 +26,17 @@ def Val.has : Val → Bool
 
 abbrev Kw := List (String × Val)
 
+/-- a branch of a choice: a single element declaration (one name) or a non-repeating sequence of element declarations -/
+abbrev Branch := List String
+
 inductive Item where
   | elem (name : String)
-  | choice (branches : List String)
+  | choice (branches : List Branch)
 deriving Repr, DecidableEq, Inhabited
 
 def Item.names : Item → List String
   | .elem n => [n]
-  | .choice bs => bs
+  | .choice bs => bs.flatten
 
 def allNames (items : List Item) : List String := items.flatMap Item.names
 
@@ -61,10 +64,18 @@ structure CState where
   found : Bool
 deriving Repr
 
+/-- `parse_kwargs` of one branch: of the element declaration, or the `else` branch of `OrderIndicator.parse_kwargs` for a
+non-repeating sequence of element declarations (members in order, `result.update(sub_result)` when it is not empty) -/
+def branchKw (kw : Kw) : Branch → Kw × List String → Kw × List String
+  | [], st => st
+  | n :: ns, (res, avail) =>
+    let r := elemKw kw n avail
+    branchKw kw ns (if r.1.isEmpty then res else upd res r.1, r.2)
+
 /-- one iteration of `for name, choice in self.elements_nested` of `Choice.parse_kwargs` (direct use) -/
-def choiceStep (kw : Kw) (st : CState) (b : String) : CState :=
+def choiceStep (kw : Kw) (st : CState) (b : Branch) : CState :=
   let temp := st.avail                                  -- temp_kwargs = copy.copy(available_kwargs)
-  let r := elemKw kw b temp                             -- subresult = choice.parse_kwargs(kwargs, name, temp_kwargs)
+  let r := branchKw kw b ([], temp)                     -- subresult = choice.parse_kwargs(kwargs, name, temp_kwargs)
   if r.1.isEmpty then st
   else if !(r.1.any fun kv => kv.2.has) then
     { st with avail := st.avail.filter r.2.contains, result := upd st.result r.1 }
@@ -72,9 +83,10 @@ def choiceStep (kw : Kw) (st : CState) (b : String) : CState :=
     { avail := st.avail.filter r.2.contains, result := upd st.result r.1, found := true }
   else st
 
-def choiceKw (kw : Kw) (bs : List String) (avail : List String) : Kw × List String :=
+def choiceKw (kw : Kw) (bs : List Branch) (avail : List String) : Kw × List String :=
   let st := bs.foldl (choiceStep kw) ⟨avail, [], false⟩
-  if st.found then (setDefaults st.result bs, st.avail) else ([], st.avail)
+  -- `for choice_name, choice in self.elements: result.setdefault(choice_name, None)`: the flattened member names
+  if st.found then (setDefaults st.result bs.flatten, st.avail) else ([], st.avail)
 
 def itemKw (kw : Kw) (avail : List String) : Item → Kw × List String
   | .elem n => elemKw kw n avail
@@ -107,5 +119,63 @@ def processKw (items : List Item) (attrs : List String) (kw : Kw) : Except KwErr
   match r.2 with
   | [] => .ok r.1
   | k :: _ => .error (.unexpectedKeyword k)
+
+
+/-! ## rendering a non-repeating choice from the bound fields (`Choice.render`, `_find_element_to_render`,
+`Sequence.accept`, `OrderIndicator.render` for a branch) -/
+
+structure Member where
+  name : String
+  optional : Bool
+deriving Repr, DecidableEq
+
+/-- a branch with the occurrence information rendering needs -/
+abbrev RBranch := List Member
+
+def RBranch.names (b : RBranch) : Branch := b.map (·.name)
+
+/-- `name in value and value[name] is not None` -/
+def given (fields : Kw) (n : String) : Bool :=
+  match fields.lookup n with
+  | some v => v != .none
+  | none => false
+
+/-- the score of a branch in `_find_element_to_render`: 1 for an element whose value is not None, `Sequence.accept(value)`
+(the number of members whose value is not None) for a sequence -/
+def score (fields : Kw) (b : RBranch) : Nat := (b.filter fun m => given fields m.name).length
+
+/-- `sorted(matches, key=itemgetter(0), reverse=True)[0]`: the first branch with the highest positive score (the sort is stable) -/
+def best (fields : Kw) : List RBranch → Option RBranch
+  | [] => none
+  | b :: bs =>
+    match best fields bs with
+    | none => if score fields b > 0 then some b else none
+    | some c => if score fields b ≥ score fields c then some b else some c
+
+inductive RErr where
+  | validation                      -- ValidationError("Missing element ...") / ("Missing choice values")
+deriving Repr, DecidableEq
+
+/-- one member of the chosen branch: `if element_value is not None or not element.is_optional: element.render(...)`, which
+raises for a required member without value -/
+def renderMember (fields : Kw) (m : Member) : Except RErr (List (String × Val)) :=
+  match fields.lookup m.name with
+  | some .none | none => if m.optional then .ok [] else .error .validation
+  | some v => .ok [(m.name, v)]
+
+def renderBranch (fields : Kw) : RBranch → Except RErr (List (String × Val))
+  | [] => .ok []
+  | m :: ms =>
+    match renderMember fields m, renderBranch fields ms with
+    | .ok a, .ok b => .ok (a ++ b)
+    | .error e, _ => .error e
+    | _, .error e => .error e
+
+/-- `Choice.render` for a non-repeating choice: validate ("Missing choice values" unless the choice is optional), then render the
+best matching branch -/
+def renderChoice (fields : Kw) (bs : List RBranch) (optionalChoice : Bool) : Except RErr (List (String × Val)) :=
+  match best fields bs with
+  | none => if optionalChoice then .ok [] else .error .validation
+  | some b => renderBranch fields b
 
 end Zeep.BindKw
